@@ -3,13 +3,14 @@
 # and the five feature builds of the C20 corpus runner. Checks rebuild incrementally themselves.
 set -e
 export CARGO_NET_OFFLINE=true
-mkdir -p /verif/work
-cd /verif/harness
-cargo build --release --offline
+ROOT=$(dirname "$(dirname "$(readlink -f "$0")")")
+mkdir -p "$ROOT/work"
+cd "$ROOT/harness"
+cargo build --release --offline --target-dir "$ROOT/work/target"
 for spec in "none:" "autocomplete:autocomplete" "all:autocomplete,docgen,batteries,derive" "dull-color:dull-color" "bright-color:bright-color"; do
   name=${spec%%:*}; feats=${spec#*:}
   if [ -n "$feats" ]; then f="--features $feats"; else f=""; fi
-  cargo build --release --offline --bin c20dump --no-default-features $f --target-dir /verif/work/target-c20/$name &
+  cargo build --release --offline --bin c20dump --no-default-features $f --target-dir "$ROOT/work/target-c20/$name" &
 done
 wait
 echo setup done
